@@ -209,7 +209,7 @@ _AS_BUILT = {
          'Assumes the analysers are deterministic functions of their members and arguments.'),
  'C19': ('; LoadParent interpreted over all 4-node graphs against "refuse iff duplicate or closes a loop"; scope-aware guard lifetime; null-guard rule for the stored translations',
          ' As built: r5 notifications suspended only around storing an operation\'s own result (finding repaired), r6 handle access + LoadParent evaluation (acyclicity of loaded documents: finding repaired), '
-         'r7 SILENT-WRITE-ANNOUNCED (a result stored with notifications suspended marks the children outdated itself; finding repaired), r8 TRANSLATIONS-GUARD (every dereference of an operation\'s translations is dominated by a null test, and StatusOf reports done only with translations present; finding repaired).',
+         'r7 SILENT-WRITE-ANNOUNCED (a result stored with notifications suspended marks the children outdated itself; finding repaired), r8 TRANSLATIONS-GUARD (every dereference of an operation\'s translations is dominated by a null test, and StatusOf reports done only with translations present; finding repaired), r9 CELL-FREE (a pictogram is put only into a cell computed as free or whose occupancy was examined on every path; finding repaired).',
          'Equality of an executed result with a fresh synthesis of the parents and the carrying-over of user additions (RSAggregator) are not decided.'),
  'C20': ('; ' + E4 + ' of Substr, TrimWhitespace, SplitBySymbol, IsInteger and Merge on all small strings / windows',
          ' As built: r5 Substr, r6 Trim, r7 Split / IsInteger evaluated on every string of a bounded family over 1-4 byte code points, Merge as a whole function.',
